@@ -3,10 +3,10 @@
 (* strict x route tables x URL domain, through Router.URL and mux.URL.      *)
 EXTENDS MC_Router
 
-GoodU == {"/u/{id}", "/u/{id:\\d+}", "/u/{id:digit}/x", "/p/{-id}/{p}", "/lit", "/w/{id:word}-{p:\\d*}", "/lit/", "/u/{id}/"}
-BadU  == {"/u/{}", "/u/{a}{b}", "/u/{id}/{id}", "/u/{id:[}", "/u/{:\\d+}"}
+GoodU == {"/u/{id}", "/u/{id:\\d+}", "/u/{id:digit}/x", "/p/{-id}/{p}", "/lit", "/w/{id:word}-{p:\\d*}", "/lit/", "/u/{id}/", "/n/{id:\\d+|new}"}
+BadU  == {"/u/{}", "/u/{a}{b}", "/u/{id}/{id}", "/u/{id:[}", "/u/{:\\d+}", "/u/{id}/{-id}", "/u/{-id}/{id:\\d+}"}
 KeysU == {"id", "p", "extra"}
-ValsU == {"5", "abc5", "5/6", "", "x y"}
+ValsU == {"5", "abc5", "5/6", "", "x y", "new", "brandnew"}
 MapsU == {[k \in S |-> f[k]] : S \in SUBSET KeysU, f \in [KeysU -> ValsU]}
 UrlSetU == {UrlP("", st, <<>>, FALSE, p, m) : st \in BOOLEAN, p \in GoodU \cup BadU, m \in MapsU}
            \cup {UrlP("mux", FALSE, <<>>, FALSE, p, m) : p \in GoodU \cup BadU, m \in MapsU}
@@ -14,7 +14,7 @@ UrlProbesU == UrlSetU
 HOpsU == {}  ROpsU == {}  COpsU == {}  UOpsU == {Us(<<>>)}
 CfgsU == {CfgD(""), CfgD("https://h"), CfgD("https://h/")}
 BasesU == {<<>>,
-           <<H("/u/{id}", G), H("/u/{id:\\d+}", G), H("/u/{id:digit}/x", G), H("/p/{-id}/{p}", G), H("/lit", G), H("/w/{id:word}-{p:\\d*}", G)>>,
+           <<H("/u/{id}", G), H("/u/{id:\\d+}", G), H("/u/{id:digit}/x", G), H("/p/{-id}/{p}", G), H("/lit", G), H("/w/{id:word}-{p:\\d*}", G), H("/n/{id:\\d+|new}", G)>>,
            <<H("/u/{id:digit}/x/y", G), H("/u/{id}/z", G), H("/u/{id}/w", G), H("/lit/x", P), H("/lit/y", P)>>}
 ProbesU == <<W("/u/{id}", [id |-> "7q"]), W("/u/{id:\\d+}", [id |-> "77"]), W("/u/{id:digit}/x", [id |-> "78"]),
              W("/p/{-id}/{p}", [id |-> "7q", p |-> "8q"]), W("/lit", <<>>), W("/w/{id:word}-{p:\\d*}", [id |-> "7q", p |-> "88"]),
